@@ -112,6 +112,9 @@ def extractMethodSigValue(op: TealOp) -> bytes:
     return methodSelector
 
 
+MAX_CONSTANT_BLOCK_SIZE = 256
+
+
 def createConstantBlocks(ops: List[TealComponent]) -> List[TealComponent]:
     """Convert TEAL code from using pseudo-ops for constants to using assembled constant blocks.
 
@@ -167,6 +170,11 @@ def createConstantBlocks(ops: List[TealComponent]) -> List[TealComponent]:
         if byteFreqs[b] > 1
     ]
 
+    # `intc`/`bytec` take a uint8 index, so a block can hold at most 256 constants; repeated
+    # constants beyond that (the least frequent ones) are loaded with pushint/pushbytes instead
+    intBlock = intBlock[:MAX_CONSTANT_BLOCK_SIZE]
+    byteBlock = byteBlock[:MAX_CONSTANT_BLOCK_SIZE]
+
     if len(intBlock) != 0:
         assembled.append(TealOp(None, Op.intcblock, *intBlock))
 
@@ -214,7 +222,10 @@ def createConstantBlocks(ops: List[TealComponent]) -> List[TealComponent]:
                         "Expect a byte-like constant opcode, get {}".format(op)
                     )
 
-                if byteFreqs[byteValue] == 1:
+                if (
+                    byteFreqs[byteValue] == 1
+                    or sortedBytes.index(byteValue) >= MAX_CONSTANT_BLOCK_SIZE
+                ):
                     encodedValue = (
                         ("0x" + byteValue.hex())
                         if type(byteValue) is bytes
